@@ -13,7 +13,7 @@ import struct
 
 from mc import core, explore, lap
 from mc.world import World
-from mc.pair import DeliveryMonitor, app_send, payload
+from mc.pair import DeliveryMonitor, app_send, payload, add_bystander
 
 PROPERTY = "C04"
 LEVEL = "model_checking"
@@ -44,7 +44,7 @@ def scenario(params, ch):
         if ok and "oncb" in opts and not early:
             size, retry = msgs[0]
             early.append(app_send(w_, mon, "c", payload(1, SIZES[size]), retry))
-    w = World(order=order, latency=latency, chooser=ch, monitors=[mon], dt=(1.0 / 60 if "dt60" in opts else (0.02 if "dt50" in opts else 1.0 / 64)),
+    w = World(n_clients=(2 if "by" in opts else 1), order=order, latency=latency, chooser=ch, monitors=[mon], dt=(1.0 / 60 if "dt60" in opts else (0.02 if "dt50" in opts else 1.0 / 64)),
               server_cfg=({"setKeepAliveInterval": ka} if ka else None), client_cfg=({"setKeepAliveInterval": ka} if ka else None),
               on_connected=(on_connected if "oncb" in opts else None))
     sender = direction[0]
@@ -56,6 +56,9 @@ def scenario(params, ch):
         if "wrap" in opts:
             w.run(4)
             w.preset_near_wrap()   # datagram, message and fragment counters cross the 16-bit wrap during the scenario
+        if "by" in opts:
+            add_bystander(w, mon)
+            w.run(3)
         base = 0 if "oncb" in opts else len(w.all_sent)
         w.fates = FATES
         for i, (size, retry) in enumerate(msgs):
@@ -68,7 +71,7 @@ def scenario(params, ch):
                 ch.flag("send-raises", "send raised %s" % type(e).__name__, repr(e))
         w.run(6)
         w.fates = []
-        recorded = list(w.all_sent[base:])
+        recorded = [d for d in w.all_sent[base:] if d.client_addr == w.clients[0].addr]
 
         def replay_point(name):
             opts = [("no replay (%s)" % name, 0)] + [("replay #%d %s at %s" % (d.id, d.src, name), 1) for d in recorded]
@@ -161,6 +164,64 @@ def scenario(params, ch):
         w.close()
 
 
+def resession_scenario(params, ch):
+    """several sessions on the SAME UdpClient object (disconnect, connect again), messages of every kind in both directions
+    in each, the application reading the way the parameter says: nothing of an earlier session is handed over again, nothing
+    is handed over twice.  One recorded datagram of an earlier session may be replayed into a later one (deviation)."""
+    read_mode, order, end_by = params
+    mon = DeliveryMonitor()
+    w = World(order=order, latency=1, chooser=ch, monitors=[mon])
+    w.client_read = read_mode
+    try:
+        w.run_until_connected()
+        w.run(2)
+        old = []
+        for sess in (1, 2, 3):
+            mark = len(w.all_sent)
+            w.fates = ["drop", "dup", "delay2"]
+            for i, (size, retry) in enumerate((("small", "none"), ("small", "retry"), ("frag2", "retry"))):
+                for snd, off in (("s", 0), ("c", 5)):
+                    e = app_send(w, mon, snd, payload(sess * 10 + off + i, SIZES[size]), retry)
+                    if e is not None:
+                        ch.flag("send-raises", "send raised %s in session %d of one client object" % (type(e).__name__, sess), repr(e))
+            w.run(3)
+            if old:
+                opts = [("no replay", 0)] + [("replay #%d (%s, earlier session) into session %d" % (d.id, d.src, sess), 1) for d in old[:12]]
+                c = ch.choose("replay-old-session", opts)
+                if c:
+                    d = old[c - 1]
+                    if d.src == "s":
+                        w.inject("c0", d.data, note="replay")
+                    else:
+                        w.inject("s", d.data, client_addr=w.clients[0].addr, note="replay")
+            w.run(8)
+            w.fates = []
+            w.run(40)
+            old = [d for d in w.all_sent[mark:] if len(d.data) > 60][:12] + old[:4]
+            if sess == 3:
+                break
+            if end_by == "client":
+                w.clients[0].client.disconnect()
+            else:
+                sc = w.server_conn(0)
+                if sc is not None:
+                    sc.disconnect()
+            w.run(8)
+            w.clients[0].client.forceDisconnect()
+            w.run(2)
+            w.client_reconnect(0)
+            w.run_until_connected()
+            w.run(2)
+        ch.steps = w.tickno
+        ch.outcome = (tuple(sorted(mon.delivered["c"].values())), tuple(sorted(mon.delivered["s"].values())))
+        if w.exceptions:
+            ch.flag("exception", "exception in %s" % w.exceptions[0][0], repr(w.exceptions[:2]))
+    finally:
+        for v in mon.violations:
+            ch.flag(*v)
+        w.close()
+
+
 def params_list(tier):
     out = []
     if tier == "quick":
@@ -193,6 +254,10 @@ def params_list(tier):
                 for o in (("cs|rdisc",) if tier == "quick" else ("cs|rdisc", "sc|rdisc", "cs|rdisc|ka0.5")):
                     out.append((direction, msgs, "none", o, 1, 100))
                     out.append((direction, msgs, "none", o, 8, 0))
+            # a second client of the same server exchanges traffic of every kind all the time (shared state between connections)
+            out.append((direction, msgs, "none", "cs|by", 1, 0))
+            if any(r != "none" for _, r in msgs):
+                out.append((direction, msgs, "none", "cs|by", 1, 100))
             # burst loss of > 32 datagrams, then a replay right behind the first datagram that gets through
             out.append((direction, msgs, "gap40", "cs|dt50", 1, 0))
             # the same with every counter a few numbers below the 16-bit wrap
@@ -229,6 +294,11 @@ def run(tier, seed):
     os.environ["_C04_TIER"] = tier
     st = explore.explore_all("checks.c04", "scenario", plist, bound,
                              time_budget=(900 if tier == "quick" else 3000))
+    rs_params = [(mode, order, end_by) for mode in ("poll", "guarded", "single", "lazy3") for order in (("cs",) if tier == "quick" else ("cs", "sc")) for end_by in ("client", "server")]
+    st_rs = explore.explore_all("checks.c04", "resession_scenario", rs_params, 1 if tier == "quick" else 2, time_budget=(900 if tier == "quick" else 1800))
+    for v in st_rs.violations:
+        rep.add_violation(core.Violation(v["oracle"], v["sig"], {"resession": True, "params": v["params"], "choices": v["choices"], "labels": v["labels"]},
+                                         "%s | sessions on one client object, params=%r deviations=%r" % (v["message"], v["params"], v["labels"])))
     b3 = None
     if tier == "thorough":
         # three deviations on a few configurations (complete unless the time budget is hit; reported separately)
@@ -253,9 +323,11 @@ def run(tier, seed):
         "evaluations": st.executions, "distinct_nontrivial": len(st.outcomes),
         "rule": "states = nodes of the execution tree (choice points reached beyond the replayed prefix); transitions = virtual ticks executed on the real stack; "
                 "every execution is an implementation execution. distinct_nontrivial = distinct final observation tuples.",
-        "exhaustive": not st.capped,
+        "exhaustive": not (st.capped or st_rs.capped),
         "samples": st.samples[:4],
         "bound3_part": b3,
+        "sessions_on_one_client_object_part": {"configurations": len(rs_params), "executions": st_rs.executions, "by_deviations": st_rs.by_cost, "capped": st_rs.capped,
+                                               "read_patterns": ["poll", "guarded", "single", "lazy3"]},
     }
     rep.assumptions = ["payload contents from a fixed marker family", "at most %d deviations per execution; macro steps idle4/burst are honest" % bound,
                        "original and copy < 32767 datagrams apart (all histories here are < 700 datagrams)"]
@@ -265,6 +337,9 @@ def run(tier, seed):
 def replay(witness):
     if "lap" in witness:
         return lap.replay(witness, PROPERTY)
+    if witness.get("resession"):
+        ch = explore.replay_choices(resession_scenario, tuple(_tup(witness["params"])), witness["choices"])
+        return [core.Violation(o, s, witness, m) for o, s, m in ch.found]
     ch = explore.replay_choices(scenario, tuple(_tup(witness["params"])), witness["choices"])
     return [core.Violation(o, s, witness, m) for o, s, m in ch.found]
 
